@@ -75,7 +75,7 @@ def make_world(n, edges, rnd, maxc=None, allow_fail=False, allow_active=False, r
     return World(nodes, max_concurrency=maxc if maxc is not None else rnd.choice([1, 2, 2, 3]))
 
 
-def sweep(props, n_max=3, seed=0, samples_per_shape=2, max_runs_per_world=300, is_async_choices=(False, True), allow_fail=False, allow_active=False, resources=("thread", "async", "main"), stop_at_first=True, budget_runs=20000):
+def sweep(props, n_max=3, seed=0, samples_per_shape=2, max_runs_per_world=300, is_async_choices=(False, True), allow_fail=False, allow_active=False, resources=("thread", "async", "main"), stop_at_first=True, budget_runs=20000, escalate=False):
     """-> dict(runs=, worlds=, violations=[...], samples=[...])"""
     rnd = random.Random(seed)
     total_runs = worlds = 0
@@ -101,6 +101,29 @@ def sweep(props, n_max=3, seed=0, samples_per_shape=2, max_runs_per_world=300, i
                                  dict(id="b", deps=[], prio=pb, seq=False, res="thread", active=("a", list(k1))),
                                  dict(id="c", deps=[], prio=pc, seq=False, res="thread", active=("a", list(k2)))]
                         yield World(nodes, max_concurrency=1), False
+        # phase 1c (deterministic): a consumer that references TWO different parts of one producer (and, in the second
+        # family, a third node): an edge is per pair of nodes, a reference is per (node, key path)
+        for res in (("thread",) * 3, ("async",) * 3):
+            for other_first in (False, True):
+                nodes = [dict(id="a", deps=[], prio=0, seq=False, res=res[0]), dict(id="b", deps=[], prio=0, seq=False, res=res[1]),
+                         dict(id="c", deps=([("b", [])] if other_first else []) + [("a", ["t"]), ("a", ["k", "f"])] + ([] if other_first else [("b", [])]), prio=0, seq=False, res=res[2])]
+                yield World(nodes, max_concurrency=2), False
+        if allow_fail:
+            # phase 1d (deterministic): exactly one failing node, every position, uniform resources: a failure reported in
+            # the same batch as a success must still fail the call
+            for n in (2, 3):
+                for es in shapes(n):
+                    for bad in range(n):
+                        for res in ("thread", "async"):
+                            nodes = [dict(id=NAMES[i], deps=[(NAMES[a], []) for a, b in es if b == i], prio=0, seq=False, res=res, fails=(i == bad)) for i in range(n)]
+                            yield World(nodes, max_concurrency=n), False
+        if escalate:
+            # phase 1e (only when a scheduler function is UNDECIDED, i.e. the stand-in is the only line of defence):
+            # every 4-node shape with uniform resources, limit 3 -- batches of two finished nodes next to a running one
+            for es in shapes(4):
+                for res in ("thread", "async"):
+                    nodes = [dict(id=NAMES[i], deps=[(NAMES[a], []) for a, b in es if b == i], prio=0, seq=False, res=res) for i in range(4)]
+                    yield World(nodes, max_concurrency=3), False
         # phase 2 (sampled with the seed): random priorities, sequential flags, limits, failing / deactivated nodes
         for n in range(1, n_max + 1):
             for es in shapes(n):
